@@ -22,6 +22,11 @@ TRUSTED = ("model:numpy np.array(list, dtype=str) = the list; np.array(SortedSet
            "np.argsort(xs) = a permutation sorting xs (non-decreasing), with its inverse")
 
 
+def is_strs(self, node):
+    """the expression is a bare name (possibly typed as strings by the contract): never treated as numbers here"""
+    return isinstance(node, ast.Name)
+
+
 def npsort(self, e, st, spec):
     name = ast.unparse(e.func)
     if spec:
@@ -35,9 +40,21 @@ def npsort(self, e, st, spec):
         return NotImplemented
     if name == "np.array" and len(e.args) == 1 and set(kw) == {"dtype"} and ast.unparse(kw["dtype"]) in ("np.float32", "np.float64", "float"):
         a = e.args[0]
-        if isinstance(a, ast.Call) and ast.unparse(a.func) == "list" and len(a.args) == 1 and not a.keywords:
+        if isinstance(a, ast.Call) and ast.unparse(a.func) == "list" and len(a.args) == 1 and not a.keywords \
+                and not isinstance(a.args[0], ast.GeneratorExp):
             a = a.args[0]
         from contracts.types import StrListOf
+        if not isinstance(a, ast.Name) and not isinstance(a, ast.List):
+            v = self.ev(a, st, spec)
+            if isinstance(v, SList) and len(v.elems.cs) == 1 and v.elems.cs[0].sort().range() in (R, I) and not is_strs(self, a):
+                # np.array(list of numbers computed in place, dtype=float): the float64 array of the same numbers
+                self.used_models.add(TRUSTED)
+                c0 = v.elems.cs[0]
+                if c0.sort().range() == I:
+                    kk = V.fresh("k", I)
+                    c0 = z3.Lambda([kk], z3.ToReal(c0[kk]))
+                return Arr(c0, [v.length], self.dtype_of(kw["dtype"]))
+            return NotImplemented
         if isinstance(a, ast.Name) and isinstance(self.c.params.get(a.id), StrListOf) \
                 and not any(isinstance(n, ast.Name) and n.id == a.id and isinstance(n.ctx, ast.Store) for n in ast.walk(self.fn)):
             v = self.ev(a, st, spec)
@@ -60,8 +77,8 @@ def npsort(self, e, st, spec):
             self.oblige(st, z3.Not(v.isnone), f"not-None@{e.lineno}:np.array", "exception-freedom", e.lineno,
                         "np.array(None) is a 0-d object array, not the 1-d array the code goes on to use")
             v = v.val
-        if isinstance(v, SList) and len(v.elems.cs) == 1 and not isinstance(e.args[0], ast.List):
-            # np.array(list of numbers / of strings): the same sequence (strings and float64 values are carried unchanged)
+        if isinstance(v, SList) and not isinstance(e.args[0], ast.List):
+            # np.array(list of numbers / strings / objects): the same sequence (strings, float64 values and objects are carried unchanged)
             self.used_models.add(TRUSTED)
             return v
         s_ = set_of(self, st, v) if isinstance(v, V.Ref) else None
